@@ -1,7 +1,7 @@
 (* C16 — At most one publisher per path; replaced publishers are cut off.
    Model: Model/PathSM.v (the path event loop as a step function). Only statements here. *)
 From Coq Require Import List ZArith.
-Require Import MTX.Lib.Trace MTX.Model.PathSM MTX.Proofs.PathSM MTX.Proofs.PathSM_Thms.
+Require Import MTX.Lib.Trace MTX.Model.PathSM MTX.Proofs.PathSM MTX.Proofs.PathSM_Thms MTX.Proofs.PathSM_Teardown.
 Import ListNotations.
 Local Open Scope Z_scope.
 
@@ -22,3 +22,28 @@ Theorem C16_reject_when_busy : forall s q p old,
   step s (AddPublisher q p) = (s, [EAnswer q (AErr E_BUSY)]).
 Proof. exact (c16_reject_when_busy true). Qed.
 Print Assumptions C16_reject_when_busy.
+
+(* overridePublisher = true: in the events of the step, the old publisher is closed, the old stream is torn
+   down (EPathNotReady) and every attached reader is closed BEFORE the new stream (a fresh generation g)
+   is created, and the new publisher is answered with that new stream afterwards; it becomes the source *)
+Theorem C16_override_closes_first : forall s q p old,
+  s_closed s = false -> c_static (s_conf s) = false -> c_override (s_conf s) = true -> s_source s = Some old ->
+  let evs := snd (step s (AddPublisher q p)) in
+  let s' := fst (step s (AddPublisher q p)) in
+  let g := s_nextgen s in
+  Before (EPubClosed old) (EPathReady g) evs /\
+  Before EPathNotReady (EPathReady g) evs /\
+  (forall r, In r (s_readers s) -> Before (EReaderClosed r) (EPathReady g) evs) /\
+  Before (EPathReady g) (EAnswer q (AStream g)) evs /\
+  s_source s' = Some p /\ s_stream s' = Some g.
+Proof. exact (c16_override_closes_first true). Qed.
+Print Assumptions C16_override_closes_first.
+
+(* non-vacuity: a replaced publisher with two readers *)
+Example C16_example :
+  let cf := mkConf false false true 0 false false false false false false in
+  snd (run cf [AddPublisher 1 1; AddReader 2 1; AddReader 3 2; AddPublisher 4 2]) =
+  [EOpen HAvail; EOpen HOnline; EPathReady 0; EAnswer 1 (AStream 0); EAnswer 2 (AStream 0); EAnswer 3 (AStream 0);
+   EPubClosed 1; EPathNotReady; EClose HOnline; EReaderClosed 1; EReaderClosed 2; EClose HAvail;
+   EOpen HAvail; EOpen HOnline; EPathReady 1; EAnswer 4 (AStream 1)].
+Proof. vm_compute. reflexivity. Qed.
